@@ -21,6 +21,7 @@ type muxRoute struct {
 	Anchor  ssa.Instruction /* for rows of a table: the loop's header test; the registration happens for every row whenever this executes */
 	Pos     token.Pos
 	In      *ssa.Function
+	condAt  ssa.Instruction /* for a row added to its table on some paths only: the append which adds it */
 }
 
 // muxRoutes finds every (*http.ServeMux).HandleFunc / Handle call in the
@@ -51,6 +52,11 @@ func muxRoutes(p *Prog) []muxRoute {
 				for _, row := range rows {
 					row.Instr, row.Pos, row.In = i, posOf(i), fn
 					row.Anchor = loopAnchor(i)
+					if nil != row.condAt {
+						/* Registered whenever the row was appended: the
+						append stands for the registration. */
+						row.Instr, row.Pos, row.Anchor = row.condAt, posOf(row.condAt), nil
+					}
 					out = append(out, row)
 				}
 				return
@@ -183,6 +189,36 @@ func literalColumn(arr *ssa.Alloc, f int) (map[int64]ssa.Value, bool) {
 // tableRoutes expands mux.HandleFunc(row.pattern, row.handler) inside a loop
 // over a literal table.
 func tableRoutes(p *Prog, pat, h ssa.Value) []muxRoute {
+	/* A table assembled from literals, some rows appended on some paths. */
+	if cp, okP := cellReadOf(pat); okP {
+		if ch, okH := cellReadOf(h); okH && cp.Index == ch.Index && sameTable(cp.Container, ch.Container) && cp.Field >= 0 && ch.Field >= 0 {
+			if _, isPhi := resolveCell(cp.Container).(*ssa.Phi); isPhi {
+				if runs, ok := p.tablesOf(cp.Container, 0); ok && rangesOverAll(cp.Index, cp.Container, -1) {
+					var out []muxRoute
+					for _, run := range runs {
+						pats, ok1 := run.T.Column(cp.Field)
+						hs, ok2 := run.T.Column(ch.Field)
+						if !ok1 || !ok2 {
+							return nil
+						}
+						for k := range pats {
+							s, isC := constString(pats[k])
+							if !isC {
+								return nil
+							}
+							rt := muxRoute{Pattern: s, Cond: nil}
+							if f, _ := closureOf(stripConv(hs[k], false)); nil != f {
+								rt.Handler = unbound(p, f)
+							}
+							rt.condAt = run.Cond
+							out = append(out, rt)
+						}
+					}
+					return out
+				}
+			}
+		}
+	}
 	arrP, fP, ok1 := elemFieldOfLiteral(pat)
 	arrH, fH, ok2 := elemFieldOfLiteral(h)
 	if !ok1 || !ok2 || arrP != arrH {
